@@ -423,6 +423,420 @@ fn main() {
                 rep.write(report);
             }
         }
+        "replay" => {
+            let r = catch(|| rt.block_on(run_replay(&a[1], &a[2], &a[3])));
+            if let Err(p) = r {
+                let mut rep = Report::default();
+                rep.fail("panic", format!("panic during replay: {p}"), json!({"mode": "replay", "scenario": a[1]}));
+                rep.write(&a[3]);
+            }
+        }
         _ => panic!("unknown mode"),
     }
+}
+
+// ================================================================================================
+// Replay of specification behaviours (T2) and weakened-spec attack schedules (T4).
+//   bft_drive replay <scenario.json> <trace-out> <report-out>
+// scenario: {"config": {"weights": [..], "faulty": [..]}, "init": "view0"|"view1", "acts": [lastAct records], "suffix": bool}
+// Abstract messages are materialised: a correct replica's message must have been emitted by its real instance in this
+// run (looked up by abstract content); Byzantine ones are built with faulty keys; certificates are aggregated from
+// real signatures. Steps that cannot be materialised are skipped and counted.
+// ================================================================================================
+mod replay {
+    use std::collections::HashMap;
+
+    use serde_json::{json, Value};
+    use vcore::{bft::*, *};
+    use zksync_consensus_roles::validator::{
+        self,
+        v2::{ChonkyMsg, CommitQC, LeaderProposal, ProposalJustification, ReplicaCommit, ReplicaNewView, ReplicaTimeout, TimeoutQC},
+    };
+
+    pub struct Replayer {
+        pub w: World,
+        pub skipped: u64,
+        pub applied: u64,
+        pub mismatched_outcome: u64,
+        pub tsig_cache: HashMap<String, validator::Signed<ReplicaTimeout>>,
+    }
+
+    fn strip_valid(mut v: Value) -> Value {
+        if let Some(o) = v.as_object_mut() {
+            o.remove("valid");
+        }
+        v
+    }
+
+    impl Replayer {
+        fn faulty(&self) -> Vec<usize> {
+            self.w.faulty.clone()
+        }
+        fn find_emitted(&self, abs_msg: &Value) -> Option<SMsg> {
+            let want = strip_valid(abs_msg.clone());
+            let abs = self.w.abs();
+            self.w.emitted.iter().find(|m| strip_valid(abs.msg_abs(m)) == want).cloned()
+        }
+        fn vote_of(&mut self, v: &Value) -> Option<ReplicaCommit> {
+            if v["view"].as_i64()? < 0 {
+                return None;
+            }
+            let p = self.w.labels.payload(v["pay"].as_str()?);
+            let c = self.w.c.clone();
+            Some(Forge { c: &c }.vote(v["view"].as_u64()?, v["num"].as_u64()?, &p))
+        }
+        /// A real commit certificate for the abstract vote: signatures emitted by real replicas + faulty keys.
+        fn commit_qc(&mut self, v: &Value) -> Option<CommitQC> {
+            let vote = self.vote_of(v)?;
+            let c = self.w.c.clone();
+            let f = Forge { c: &c };
+            let mut votes: Vec<_> = commits_in(&self.w.emitted).into_iter().filter(|m| m.msg == vote).collect();
+            for b in self.faulty() {
+                votes.push(f.commit(b, vote.clone()).cast().unwrap());
+            }
+            let qc = f.commit_qc(&votes)?;
+            if qc.signers.weight(&c.schedule) >= c.quorum() {
+                Some(qc)
+            } else {
+                None
+            }
+        }
+        /// A real timeout certificate whose derived content (by the real high_vote / high_qc) equals the target.
+        fn timeout_qc(&mut self, t: &Value) -> Option<TimeoutQC> {
+            let view = t["view"].as_u64()?;
+            let c = self.w.c.clone();
+            let f = Forge { c: &c };
+            let correct: Vec<validator::Signed<ReplicaTimeout>> = timeouts_in(&self.w.emitted)
+                .into_iter()
+                .filter(|m| m.msg.view.number.0 == view && c.pos(&m.key) > 0)
+                .collect();
+            // candidate reports per signer
+            let mut cands: Vec<(usize, Vec<validator::Signed<ReplicaTimeout>>)> = vec![];
+            let hvs: Vec<Option<ReplicaCommit>> = {
+                let mut v: Vec<Option<ReplicaCommit>> = vec![None];
+                for m in &correct {
+                    if m.msg.high_vote.is_some() && !v.contains(&m.msg.high_vote) {
+                        v.push(m.msg.high_vote.clone());
+                    }
+                }
+                v
+            };
+            let mut hqs: Vec<Option<CommitQC>> = vec![None];
+            if let Some(q) = self.commit_qc(&t["hq"]) {
+                hqs.push(Some(q));
+            }
+            for pos in 1..=c.n() {
+                let mut v = vec![];
+                if self.faulty().contains(&pos) {
+                    for hv in &hvs {
+                        for hq in &hqs {
+                            let key = format!("{pos}|{view}|{:?}|{}", hv, hq.is_some());
+                            let m = self
+                                .tsig_cache
+                                .entry(key)
+                                .or_insert_with(|| f.sign(pos, ChonkyMsg::ReplicaTimeout(ReplicaTimeout { view: c.view(view), high_vote: hv.clone(), high_qc: hq.clone() })).cast().unwrap())
+                                .clone();
+                            v.push(m);
+                        }
+                    }
+                } else {
+                    for m in &correct {
+                        if c.pos(&m.key) == pos && !v.iter().any(|x: &validator::Signed<ReplicaTimeout>| x.msg == m.msg) {
+                            v.push(m.clone());
+                        }
+                    }
+                }
+                if !v.is_empty() {
+                    cands.push((pos, v));
+                }
+            }
+            // search signer subsets (bitmask) x report choices
+            let k = cands.len();
+            let abs_target = t.clone();
+            for mask in 1u32..(1 << k) {
+                let chosen: Vec<usize> = (0..k).filter(|i| mask & (1 << i) != 0).collect();
+                let w: u64 = chosen.iter().map(|i| c.weights[cands[*i].0 - 1]).sum();
+                if w < c.quorum() {
+                    continue;
+                }
+                // odometer over choices
+                let mut idx = vec![0usize; chosen.len()];
+                loop {
+                    let votes: Vec<_> = chosen.iter().zip(&idx).map(|(ci, j)| cands[*ci].1[*j].clone()).collect();
+                    let qc = f.timeout_qc(view, &votes);
+                    let got = Abs { c: &c, l: &self.w.labels }.tq_derived(&qc);
+                    if got == abs_target {
+                        return Some(qc);
+                    }
+                    let mut p = 0;
+                    loop {
+                        if p == idx.len() {
+                            break;
+                        }
+                        idx[p] += 1;
+                        if idx[p] < cands[chosen[p]].1.len() {
+                            break;
+                        }
+                        idx[p] = 0;
+                        p += 1;
+                    }
+                    if p == idx.len() {
+                        break;
+                    }
+                }
+            }
+            None
+        }
+        fn just(&mut self, j: &Value) -> Option<ProposalJustification> {
+            match j["k"].as_str()? {
+                "c" => self.commit_qc(&j["cq"]).map(ProposalJustification::Commit),
+                "t" => self.timeout_qc(&j["tq"]).map(ProposalJustification::Timeout),
+                _ => None,
+            }
+        }
+        async fn deliver(&mut self, r: usize, m: SMsg, cut: Option<usize>) -> StepResult {
+            let res = self.w.step_cut(r, StepKind::Recv(m), cut).await;
+            if res.crashed {
+                self.w.crash(r).await;
+                self.w.step(r, StepKind::Boot).await;
+            }
+            res
+        }
+
+        pub async fn act(&mut self, a: &Value) {
+            let name = a["a"].as_str().unwrap_or("");
+            let r = a["r"].as_u64().unwrap_or(0) as usize;
+            let cut = a["crash"].as_i64().filter(|k| *k >= 0).map(|k| k as usize);
+            if name == "init" {
+                return;
+            }
+            if !self.w.nodes.contains_key(&r) {
+                self.skipped += 1;
+                return;
+            }
+            let c = self.w.c.clone();
+            let f = Forge { c: &c };
+            match name {
+                "proposal" => {
+                    let m = &a["m"];
+                    let from = m["from"].as_u64().unwrap() as usize;
+                    let msg = if self.faulty().contains(&from) {
+                        match self.just(&m["j"]) {
+                            Some(j) => {
+                                let p = m["p"].as_str().unwrap();
+                                let payload = if p == "none" { None } else { Some(self.w.labels.payload(p)) };
+                                Some(f.sign(from, ChonkyMsg::LeaderProposal(LeaderProposal { proposal_payload: payload, justification: j })))
+                            }
+                            None => None,
+                        }
+                    } else {
+                        self.find_emitted(m)
+                    };
+                    match msg {
+                        Some(msg) => {
+                            let res = self.deliver(r, msg, cut).await;
+                            self.applied += 1;
+                            if !res.accepted && !res.crashed {
+                                self.mismatched_outcome += 1;
+                            }
+                        }
+                        None => self.skipped += 1,
+                    }
+                }
+                "just" => {
+                    // the certificate is assembled locally: deliver the individual votes until the view advances
+                    let j = &a["m"]["j"];
+                    let before = self.w.snapshot(r).view.0;
+                    let target = match j["k"].as_str() {
+                        Some("c") => j["cq"]["view"].as_u64().unwrap_or(0) + 1,
+                        _ => j["tq"]["view"].as_u64().unwrap_or(0) + 1,
+                    };
+                    let votes: Vec<SMsg> = match self.just(j) {
+                        Some(ProposalJustification::Commit(qc)) => {
+                            let mut v: Vec<SMsg> = commits_in(&self.w.emitted).into_iter().filter(|m| m.msg == qc.message).map(|m| m.cast().unwrap()).collect();
+                            for b in self.faulty() {
+                                v.push(f.commit(b, qc.message.clone()));
+                            }
+                            v
+                        }
+                        Some(ProposalJustification::Timeout(tqc)) => {
+                            // the signed votes inside the certificate: re-find them (emitted or crafted)
+                            let mut v: Vec<SMsg> = vec![];
+                            for (msg, signers) in &tqc.map {
+                                for (i, b) in signers.0.iter().enumerate() {
+                                    if !b {
+                                        continue;
+                                    }
+                                    let pos = i + 1;
+                                    if self.faulty().contains(&pos) {
+                                        v.push(f.sign(pos, ChonkyMsg::ReplicaTimeout(msg.clone())));
+                                    } else if let Some(m) = timeouts_in(&self.w.emitted).into_iter().find(|m| &m.msg == msg && c.pos(&m.key) == pos) {
+                                        v.push(m.cast().unwrap());
+                                    }
+                                }
+                            }
+                            v
+                        }
+                        None => vec![],
+                    };
+                    if votes.is_empty() {
+                        self.skipped += 1;
+                        return;
+                    }
+                    let n = votes.len();
+                    let mut advanced = false;
+                    for (i, m) in votes.into_iter().enumerate() {
+                        // the kill point (if any) applies to the step that forms the certificate: we do not know which one it is
+                        // in advance, so the cut is applied to every delivery (a cut on a step without output is a plain crash)
+                        let last = i + 1 == n;
+                        let res = self.deliver(r, m, if last { cut } else { None }).await;
+                        let _ = res;
+                        if self.w.nodes.contains_key(&r) && self.w.snapshot(r).view.0 >= target && self.w.snapshot(r).view.0 > before {
+                            advanced = true;
+                            break;
+                        }
+                    }
+                    self.applied += 1;
+                    if !advanced {
+                        self.mismatched_outcome += 1;
+                    }
+                }
+                "leadernv" => {
+                    let m = &a["m"];
+                    let from = m["from"].as_u64().unwrap() as usize;
+                    let msg = if self.faulty().contains(&from) {
+                        self.just(&m["j"]).map(|j| f.sign(from, ChonkyMsg::ReplicaNewView(ReplicaNewView { justification: j })))
+                    } else {
+                        self.find_emitted(m)
+                    };
+                    match msg {
+                        Some(msg) => {
+                            self.deliver(r, msg, None).await;
+                            self.applied += 1;
+                        }
+                        None => self.skipped += 1,
+                    }
+                }
+                "timer" => {
+                    let res = self.w.step_cut(r, StepKind::Timer, cut).await;
+                    if res.crashed {
+                        self.w.crash(r).await;
+                        self.w.step(r, StepKind::Boot).await;
+                    }
+                    self.applied += 1;
+                }
+                "propose" => {
+                    let p = a["m"]["p"].as_str().unwrap_or("none");
+                    let name = if p == "none" { "unused" } else { p };
+                    if self.w.propose(r, name).await.is_some() {
+                        self.applied += 1;
+                    } else {
+                        self.skipped += 1;
+                    }
+                }
+                "sync" => {
+                    let num = a["m"]["num"].as_u64().unwrap();
+                    let pay = a["m"]["pay"].as_str().unwrap().to_string();
+                    // from another node's store if it holds exactly that block, else build it from a materialised certificate
+                    let mut blk = None;
+                    for (p, n) in &self.w.nodes {
+                        if *p != r {
+                            let bs = n.engine.inner().blocks.lock().unwrap();
+                            if let Some(validator::Block::FinalV2(b)) = bs.get(num as usize) {
+                                if self.w.labels.name(&b.payload.hash()) == pay {
+                                    blk = Some(validator::Block::FinalV2(b.clone()));
+                                }
+                            }
+                        }
+                    }
+                    if blk.is_none() {
+                        let votes = commits_in(&self.w.emitted);
+                        let views: Vec<u64> = votes.iter().map(|m| m.msg.view.number.0).collect();
+                        for v in views {
+                            if let Some(qc) = self.commit_qc(&json!({"view": v, "num": num, "pay": pay})) {
+                                blk = Some(validator::Block::FinalV2(validator::v2::FinalBlock { payload: self.w.labels.payload(&pay), justification: qc }));
+                                break;
+                            }
+                        }
+                    }
+                    match blk {
+                        Some(b) => {
+                            self.w.sync_block(r, b).await;
+                            self.applied += 1;
+                        }
+                        None => self.skipped += 1,
+                    }
+                }
+                "crash" => {
+                    self.w.crash(r).await;
+                    self.w.step(r, StepKind::Boot).await;
+                    self.applied += 1;
+                }
+                _ => self.skipped += 1,
+            }
+        }
+    }
+}
+
+async fn run_replay(scn_path: &str, trace: &str, report: &str) {
+    let scn: serde_json::Value = serde_json::from_str(&std::fs::read_to_string(scn_path).unwrap()).unwrap();
+    let weights: Vec<u64> = scn["config"]["weights"].as_array().unwrap().iter().map(|x| x.as_u64().unwrap()).collect();
+    let faulty: Vec<usize> = scn["config"]["faulty"].as_array().unwrap().iter().map(|x| x.as_u64().unwrap() as usize).collect();
+    let mut rep = Report::default();
+    let w = World::new(&weights, &faulty, scn["seed"].as_u64().unwrap_or(1)).await;
+    let mut d = Driver { w, rng: vcore::rng(1), pool: vec![], seen_emitted: 0, counts: Default::default() };
+    for p in d.real() {
+        d.boot(p).await;
+    }
+    if scn["init"] == "view1" {
+        // bootstrap as InitView1: every replica receives everybody's view-0 timeout votes
+        d.absorb();
+        let t0: Vec<SMsg> = d.pool.clone();
+        for p in d.real() {
+            for m in &t0 {
+                d.deliver(p, m.clone()).await;
+            }
+        }
+        // faulty validators' timeouts may be needed to reach the quorum
+        let c = d.w.c.clone();
+        let f = Forge { c: &c };
+        for b in faulty.clone() {
+            let m = f.sign(b, zksync_consensus_roles::validator::v2::ChonkyMsg::ReplicaTimeout(ReplicaTimeout { view: c.view(0), high_vote: None, high_qc: None }));
+            for p in d.real() {
+                if d.w.snapshot(p).view.0 == 0 {
+                    d.deliver(p, m.clone()).await;
+                }
+            }
+        }
+    }
+    let mut rp = replay::Replayer { w: d.w, skipped: 0, applied: 0, mismatched_outcome: 0, tsig_cache: Default::default() };
+    for a in scn["acts"].as_array().unwrap() {
+        rp.act(a).await;
+    }
+    let (skipped, applied, mism) = (rp.skipped, rp.applied, rp.mismatched_outcome);
+    d.w = rp.w;
+    d.seen_emitted = 0;
+    d.pool.clear();
+    d.absorb();
+    let mut progress = json!(null);
+    if scn["suffix"].as_bool().unwrap_or(true) {
+        let bound = 2 * (faulty.len() as u32 + 3) + d.w.c.n() as u32;
+        let (ok, rounds, timer_rounds, heights) = d.good_period(bound).await;
+        progress = json!({"ok": ok, "rounds": rounds, "timer_rounds": timer_rounds, "heights": heights});
+        if !ok {
+            rep.fail("no_progress", format!("no new block at every correct node within {bound} timer rounds of the good period (heights {heights:?})"),
+                json!({"mode": "replay", "scenario": scn_path}));
+        }
+    }
+    rep.evaluations = d.w.log.len() as u64;
+    rep.distinct = applied;
+    rep.add("applied", applied);
+    rep.add("skipped", skipped);
+    rep.add("outcome_differs", mism);
+    rep.add("events", d.w.log.len() as u64);
+    rep.add("stuck", d.w.stuck);
+    rep.sample(json!({"scenario": scn_path, "applied": applied, "skipped": skipped, "progress": progress, "heights": d.heights()}));
+    d.w.log.write(trace);
+    d.w.shutdown().await;
+    rep.write(report);
 }
